@@ -175,6 +175,15 @@ func (ex *Exec) builtin(fr *Frame, st *State, b *ssa.Builtin, cc *ssa.CallCommon
 				return
 			}
 			set(ex.freshVal("len", types.Typ[types.Int]))
+		case *types.Chan:
+			cp := app(ex.declFun("chancap", []string{sInt}, bv64), x.L[0])
+			if b.Name() == "cap" {
+				set(Val{L: []string{cp}})
+			} else {
+				v := ex.freshVal("chanlen", types.Typ[types.Int])
+				ex.assume(st.pc, and(nonNeg(v.L[0]), app("bvsle", v.L[0], cp)))
+				set(v)
+			}
 		default:
 			v := ex.freshVal("len", types.Typ[types.Int])
 			ex.assume("true", nonNeg(v.L[0]))
